@@ -5,6 +5,7 @@ Require Import PPLV.gen.Facts_COTree PPLV.Rows.COTree PPLV.Rows.COTreeSpec.
 Require Import PPLV.Rows.Abs PPLV.Rows.Dense PPLV.Rows.Sparse PPLV.Rows.Expr PPLV.Rows.RowsFacts.
 Require PPLV.Rows.DenseProofs PPLV.Rows.SparseProofs PPLV.Rows.ExprProofs.
 Require PPLV.Rows.COTreeBase PPLV.Rows.COTreeSearch PPLV.Rows.COTreeStatic PPLV.Rows.COTreeHint PPLV.Rows.COTreeDens.
+Require PPLV.Rows.COTreeIter PPLV.Rows.COTreeUpdate PPLV.Rows.COTreeMain.
 
 (* unstored entries of a sparse row read as zero *)
 Theorem unstored_reads_zero : forall s i, s_mem i (sents s) = false -> s_get i s = 0%Z.
@@ -108,6 +109,41 @@ Proof. exact COTreeStatic.rebuild_smaller_inv. Qed.
 (* the iterator constructor CO_Tree(Iterator, n) (used by Sparse_Row copies and the bulk linear_combine) *)
 Theorem of_list_refines : forall l, sorted l -> abs_tree (of_list l) = l /\ inv (of_list l).
 Proof. intros l H. split; [apply COTreeStatic.of_list_abs|apply COTreeStatic.of_list_inv, H]. Qed.
+
+(* ---- insert and erase through rebalance (compact_elements_in_the_rightmost_end + redistribute_elements_in_subtree,
+   rebuild_bigger / rebuild_smaller, the hole moving down in erase) refine the map and keep the invariant ---- *)
+Theorem insert_refines : forall t k v, inv t ->
+  abs_tree (fst (insert t k v)) = m_insert k v (abs_tree t) /\ inv (fst (insert t k v)).
+Proof. exact COTreeUpdate.insert_refines. Qed.
+Theorem insert_key_refines : forall t k, inv t ->
+  abs_tree (fst (insert_key t k)) = m_insert_key k (abs_tree t) /\ inv (fst (insert_key t k)).
+Proof. exact COTreeUpdate.insert_key_refines. Qed.
+Theorem erase_key_refines : forall t k, inv t ->
+  abs_tree (fst (erase_key t k)) = m_erase k (abs_tree t) /\ inv (fst (erase_key t k)).
+Proof. exact COTreeUpdate.erase_key_refines. Qed.
+Theorem erase_pos_refines : forall t p, inv t -> aget (t_arr t) p <> None ->
+  abs_tree (fst (erase_pos t p)) = m_erase (key_at (t_arr t) p) (abs_tree t) /\ inv (fst (erase_pos t p)).
+Proof. exact COTreeUpdate.erase_pos_refines. Qed.
+(* iterating with operator++ from begin() to end() (resp. operator-- from end()) enumerates the map in order *)
+Theorem iteration_refines : forall t, inv t ->
+  COTreeIter.iter_from (S (N.to_nat (t_rsz t))) t (t_begin t) = abs_tree t.
+Proof. exact COTreeIter.iteration_refines. Qed.
+Theorem reverse_iteration_refines : forall t, inv t -> 0 < t_size t ->
+  COTreeIter.riter_from (S (N.to_nat (t_rsz t))) t (prev_pos t (t_end t)) = rev (abs_tree t).
+Proof. exact COTreeIter.reverse_iteration_refines. Qed.
+
+(* ---- whole histories: after ANY sequence of insert(key,data) / insert(key) / insert(itr,key[,data]) with
+   arbitrary hints / erase(key) / erase(itr) / increase_keys_from, the used slots in array (= in-order) order
+   are the ordered map, keys strictly increase, markers/size/capacity are consistent and the density bounds of
+   CO_Tree::OK() hold.  (erase_element_and_shift_left is the one operation not covered here: see the _full
+   statements below.) ---- *)
+Theorem cotree_refines_map_partial : forall ops, forallb COTreeMain.no_erase_shift ops = true ->
+  abs_tree (run_tree ops) = run_map ops /\ inv_full (run_tree ops).
+Proof. exact COTreeMain.cotree_refines_map_basic. Qed.
+Example cotree_partial_hyp_sat :
+  forallb COTreeMain.no_erase_shift
+    [OpInsert 5 1%Z; OpInsertHint 77 3 (Some 2%Z); OpInsertKey 9; OpErase 5; OpErasePos 1; OpShiftUp 3 4] = true.
+Proof. reflexivity. Qed.
 
 (* ---- densities: what CO_Tree::OK() adds to structure_OK(), preserved by every update
    (szinv2 follows from inv: COTreeDens.inv_szinv2) ---- *)
